@@ -16,7 +16,7 @@ build_coq() {
   # extraction + driver, only when the model or the driver changed
   local stamp=$C/ocaml/stamp
   local cur
-  cur=$(cat theories/Base.v theories/Machine.v theories/Ops.v theories/Spec.v theories/Driver.v theories/Threads.v theories/ThreadSpec.v theories/ThreadsFine.v theories/ThreadsTakeMerge.v theories/ThreadsTakeCombine.v theories/Chain.v theories/Tree.v theories/TreePrograms.v theories/NetDriver.v theories/TraceEnv.v theories/LivenessG.v theories/PipeNetG.v theories/Extract.v $V/driver/main.ml 2>/dev/null | sha1sum | cut -d' ' -f1)
+  cur=$(cat theories/Base.v theories/Machine.v theories/Ops.v theories/Spec.v theories/Driver.v theories/Threads.v theories/ThreadSpec.v theories/ThreadsFine.v theories/ThreadsTakeMerge.v theories/ThreadsTakeCombine.v theories/ThreadsTakeMergeFine.v theories/Chain.v theories/Tree.v theories/TreePrograms.v theories/NetDriver.v theories/TraceEnv.v theories/LivenessG.v theories/PipeNetG.v theories/Extract.v $V/driver/main.ml 2>/dev/null | sha1sum | cut -d' ' -f1)
   if [ ! -x $C/ocaml/driver ] || [ "$(cat $stamp 2>/dev/null)" != "$cur" ]; then
     cd $C/ocaml
     timeout 600 coqc -Q $V/coq/theories CB $V/coq/theories/Extract.v -o $C/ocaml/Extract.vo > $C/logs/extract.log 2>&1 || { cat $C/logs/extract.log; echo "EXTRACTION FAILED"; return 1; }
